@@ -159,6 +159,15 @@ def _case(draw, tier):
         d2 = [math.cos(a1 + sep) * e1[i] + math.sin(a1 + sep) * e2[i] for i in range(3)]
         small = st.floats(1e-5, math.radians(89)) | st.sampled_from([1e-5, 2e-5, 1e-4, 1e-3])
         s1, t1, s2, t2 = (draw(small) for _ in range(4))
+        if draw(st.sampled_from([False, False, True])):
+            # long arcs whose crossing lies more than 90 degrees from an end point (total length stays < 179 degrees)
+            s1 = draw(st.floats(math.radians(91), math.radians(170)))
+            t1 = draw(st.floats(1e-4, math.radians(178) - s1))
+            if draw(st.booleans()):
+                s2 = draw(st.floats(math.radians(91), math.radians(170)))
+                t2 = draw(st.floats(1e-4, math.radians(178) - s2))
+            if draw(st.booleans()):
+                s1, t1 = t1, s1
         A1, B1 = _along(x, d1, -s1), _along(x, d1, t1)
         if kind == "cross":
             A2, B2 = _along(x, d2, -s2), _along(x, d2, t2)
